@@ -1,5 +1,5 @@
 """C08 — a note is a one-way flag set by notify, by its deadline, or by an ancestor."""
-from props.shared import note_groups, note_tree_groups
+from props.shared import note_groups, note_tree_groups, note_conc_groups
 
 ID = "C08"
 LEVEL = "other"
@@ -30,4 +30,6 @@ PARALLEL = 12
 
 def groups(tier):
     t = ["C08", "C03", "C13"]
-    return note_groups(tags=t) + note_tree_groups(tags=t + ["C09"])
+    # the concurrent scenarios of C09 whose thread A creates a child or notifies: 'a child of a notified parent is born notified', 'when notify returns the note is notified'
+    return note_groups(tags=t) + note_tree_groups(tags=t + ["C09"]) + \
+           [g for g in note_conc_groups(tags=["C08"], tier=tier) if ".new." in g.name or ".notify." in g.name]
